@@ -27,6 +27,10 @@ type oactor struct {
 	handled []string
 	held    chan struct{}
 	release chan struct{}
+	// second hold: inside the first HandleLog
+	logHold  bool
+	held2    chan struct{}
+	release2 chan struct{}
 }
 
 type holdCmd struct{}
@@ -48,7 +52,13 @@ func (o *oactor) HandleLog(message gen.MessageLog) error {
 	if strings.HasPrefix(message.Format, "VLOG:") {
 		o.mu.Lock()
 		o.handled = append(o.handled, message.Format[5:])
+		hold := o.logHold
+		o.logHold = false
 		o.mu.Unlock()
+		if hold {
+			close(o.held2)
+			<-o.release2
+		}
 	}
 	return nil
 }
@@ -60,6 +70,7 @@ type OOp struct {
 	Cls string `json:"cls"` // class the message must be handled in: urgent system main log ("" for operations that deliver nothing)
 	Ok  bool   `json:"ok"`  // the operation reported success
 	Res string `json:"res"`
+	Ph  int    `json:"ph"` // 1: issued while the receiver was parked in HandleMessage, 2: while it was parked in its first HandleLog
 }
 
 type OLine struct {
@@ -67,6 +78,7 @@ type OLine struct {
 	Ev      string   `json:"ev"`
 	Ops     []OOp    `json:"ops"`
 	Handled []string `json:"handled"`
+	HoldLog bool     `json:"holdlog"`
 	State   string   `json:"st"`
 	QLen    int64    `json:"qlen"`
 }
@@ -85,7 +97,9 @@ func clsOf(p gen.MessagePriority) string {
 func (r *Runner) RunOrder(n int, seed int64) error {
 	rng := rand.New(rand.NewSource(seed))
 	for h := 1; h <= n; h++ {
-		o := &oactor{held: make(chan struct{}), release: make(chan struct{})}
+		o := &oactor{held: make(chan struct{}), release: make(chan struct{}), held2: make(chan struct{}), release2: make(chan struct{})}
+		holdLog := h%3 == 0
+		o.logHold = holdLog
 		name := gen.Atom(fmt.Sprintf("ord_%d_%d", seed%100000, h))
 		rpid, err := r.Node.SpawnRegister(name, func() gen.ProcessBehavior { return o }, gen.ProcessOptions{})
 		if err != nil {
@@ -120,49 +134,72 @@ func (r *Runner) RunOrder(n int, seed int64) error {
 		}
 		time.Sleep(200 * time.Microsecond)
 		var ops []OOp
-		nops := 8 + rng.Intn(16)
-		for k := 1; k <= nops; k++ {
-			s := []string{"A", "B"}[rng.Intn(2)]
-			id := fmt.Sprintf("%s:%d", s, k)
-			op := OOp{ID: id, S: s}
-			pr := []gen.MessagePriority{gen.MessagePriorityNormal, gen.MessagePriorityHigh, gen.MessagePriorityMax}[rng.Intn(3)]
-			var res error
-			switch c := rng.Intn(10); {
-			case c < 3:
-				op.API, op.Cls = "send", clsOf(prio[s])
-				gated.Do(r.Node, senders[s], func(sc *gated.Scripted) error { res = sc.Send(rpid, Msg{ID: id, Kind: "msg"}); return nil })
-			case c < 5:
-				op.API, op.Cls = "name", clsOf(prio[s])
-				gated.Do(r.Node, senders[s], func(sc *gated.Scripted) error { res = sc.Send(name, Msg{ID: id, Kind: "msg"}); return nil })
-			case c < 7:
-				op.API, op.Cls = "prio", clsOf(pr)
-				gated.Do(r.Node, senders[s], func(sc *gated.Scripted) error {
-					res = sc.SendWithPriority(rpid, Msg{ID: id, Kind: "msg"}, pr)
-					return nil
-				})
-			case c < 8:
-				// a send that fails (terminated target): nothing is delivered, and nothing about later sends may change
-				op.API, op.Cls = "failprio", ""
-				gated.Do(r.Node, senders[s], func(sc *gated.Scripted) error {
-					res = sc.SendWithPriority(dead, Msg{ID: id, Kind: "msg"}, pr)
-					return nil
-				})
-			case c < 9:
-				op.API, op.Cls = "setprio", ""
-				prio[s] = pr
-				gated.Do(r.Node, senders[s], func(sc *gated.Scripted) error { res = sc.SetSendPriority(pr); return nil })
-			default:
-				op.S, op.API, op.Cls = "N", "log", "log"
-				op.ID = fmt.Sprintf("N:%d", k)
-				r.Node.Log().Debug("VLOG:" + op.ID)
+		kseq := 0
+		issue := func(nops, phase int, forceLogs int) {
+			for n := 0; n < nops; n++ {
+				kseq++
+				k := kseq
+				s := []string{"A", "B"}[rng.Intn(2)]
+				id := fmt.Sprintf("%s:%d", s, k)
+				op := OOp{ID: id, S: s, Ph: phase}
+				pr := []gen.MessagePriority{gen.MessagePriorityNormal, gen.MessagePriorityHigh, gen.MessagePriorityMax}[rng.Intn(3)]
+				var res error
+				c := rng.Intn(10)
+				if n < forceLogs {
+					c = 9
+				}
+				switch {
+				case c < 3:
+					op.API, op.Cls = "send", clsOf(prio[s])
+					gated.Do(r.Node, senders[s], func(sc *gated.Scripted) error { res = sc.Send(rpid, Msg{ID: id, Kind: "msg"}); return nil })
+				case c < 5:
+					op.API, op.Cls = "name", clsOf(prio[s])
+					gated.Do(r.Node, senders[s], func(sc *gated.Scripted) error { res = sc.Send(name, Msg{ID: id, Kind: "msg"}); return nil })
+				case c < 7:
+					op.API, op.Cls = "prio", clsOf(pr)
+					gated.Do(r.Node, senders[s], func(sc *gated.Scripted) error {
+						res = sc.SendWithPriority(rpid, Msg{ID: id, Kind: "msg"}, pr)
+						return nil
+					})
+				case c < 8:
+					// a send that fails (terminated target): nothing is delivered, and nothing about later sends may change
+					op.API, op.Cls = "failprio", ""
+					gated.Do(r.Node, senders[s], func(sc *gated.Scripted) error {
+						res = sc.SendWithPriority(dead, Msg{ID: id, Kind: "msg"}, pr)
+						return nil
+					})
+				case c < 9:
+					op.API, op.Cls = "setprio", ""
+					prio[s] = pr
+					gated.Do(r.Node, senders[s], func(sc *gated.Scripted) error { res = sc.SetSendPriority(pr); return nil })
+				default:
+					op.S, op.API, op.Cls = "N", "log", "log"
+					op.ID = fmt.Sprintf("N:%d", k)
+					r.Node.Log().Debug("VLOG:" + op.ID)
+				}
+				op.Ok = res == nil
+				if res != nil {
+					op.Res = res.Error()
+				}
+				ops = append(ops, op)
 			}
-			op.Ok = res == nil
-			if res != nil {
-				op.Res = res.Error()
-			}
-			ops = append(ops, op)
+		}
+		if holdLog {
+			issue(4+rng.Intn(8), 1, 2)
+		} else {
+			issue(8+rng.Intn(16), 1, 0)
 		}
 		close(o.release)
+		if holdLog {
+			// the receiver works through phase 1 and parks inside its first HandleLog; phase 2 arrives while it is busy there
+			select {
+			case <-o.held2:
+				issue(3+rng.Intn(8), 2, 0)
+				close(o.release2)
+			case <-time.After(3 * time.Second):
+				return fmt.Errorf("receiver never reached its first log message")
+			}
+		}
 		// quiescence
 		deadline := time.Now().Add(3 * time.Second)
 		var st gen.ProcessState
@@ -187,7 +224,7 @@ func (r *Runner) RunOrder(n int, seed int64) error {
 		o.mu.Lock()
 		handled := append([]string{}, o.handled...)
 		o.mu.Unlock()
-		line := OLine{P: h, Ev: "hist", Ops: ops, Handled: handled, State: stateName(st), QLen: ql}
+		line := OLine{P: h, Ev: "hist", Ops: ops, Handled: handled, HoldLog: holdLog, State: stateName(st), QLen: ql}
 		b, _ := json.Marshal(line)
 		r.Out.Write(b)
 		r.Out.WriteByte('\n')
